@@ -125,11 +125,11 @@ def c15_streams(tier, rng, ctx):
     un_fns = ["base", "first", "dir", "ext", "name", "trim_ext", "trim_first", "trim_last", "is_empty", "parse_paths",
               "std_parent", "std_file_name", "std_extension", "components"]
     for fn in un_fns:
-        sts.append(Stream("h-" + fn, "mirror", [line(fn, s) for s in U],
+        sts.append(Stream("h-" + fn, "mirror", [line(fn, s) for s in U], judge=lambda l, o: "PANIC" in o,
                           exhaustive=True, rule="sys::%s vs mirror on all strings over %s up to length %d + random" % (fn, "".join(alpha1), n1)))
     sts.append(Stream("h-trim_protocol", "mirror", [line("trim_protocol", s) for s in U + proto]))
     for fn in ["trim_prefix", "trim_suffix", "has", "has_prefix", "has_suffix", "mash", "concat", "std_push", "std_eq", "std_starts_with"]:
-        sts.append(Stream("h-" + fn, "mirror", [line(fn, x, y) for x, y in P], exhaustive=True,
+        sts.append(Stream("h-" + fn, "mirror", [line(fn, x, y) for x, y in P], exhaustive=True, judge=lambda l, o: "PANIC" in o,
                           rule="binary helper vs mirror on all pairs of strings up to length %d + random" % n2))
     # the laws of the statement, evaluated on the real code
     for law in ["law_ext", "law_name", "law_dir_base", "law_first", "law_last", "law_parse_paths"]:
